@@ -415,10 +415,16 @@ func pnftOps(e *pnftEnv, v pnftVariant) []explore.Op {
 			txOp("Exec(C,TransferPNFT(d,t,A->C))", s(C), exec(C, pnfttypes.NewMsgTransferPNFTRequest("d", "t", A.Bech, C.Bech))),
 			txOp("Exec(C,Mint(d,tt,creator=A))", s(C), exec(C, pnfttypes.NewMsgMintPNFTRequest("d", "tt", "evil", "", "", "", A.Bech, ""))),
 			txOp("Exec(C,Burn(d,t,burner=B))", s(C), exec(C, pnfttypes.NewMsgBurnPNFTRequest("d", "t", B.Bech))),
+			// self-executed messages (no grant needed) are judged like the plain message; a second transfer of the same token
+			// later in one transaction is judged against the state the first one left
+			txOp("Exec(C,TransferPNFT(d,t,C->B))", s(C), exec(C, pnfttypes.NewMsgTransferPNFTRequest("d", "t", C.Bech, B.Bech))),
+			txOp("Exec(C,Burn(d,t,burner=C))", s(C), exec(C, pnfttypes.NewMsgBurnPNFTRequest("d", "t", C.Bech))),
+			txOp("Tx[TransferPNFT(d,t,A->B),TransferPNFT(d,t,A->C)]", s(A), pnfttypes.NewMsgTransferPNFTRequest("d", "t", A.Bech, B.Bech), pnfttypes.NewMsgTransferPNFTRequest("d", "t", A.Bech, C.Bech)),
 		)
 	}
 	if v.Wide {
 		ops = append(ops,
+			createDenom("dd", A, e.AUpper), // owner recorded in upper-case bech32: the same account in every listing
 			createDenom("d\x00x", A, A.Bech),
 			mint("d", "x\x00t", A),
 			mint("d\x00x", "t", A),
